@@ -842,6 +842,72 @@ def check_delivery(ctx, progs):
     ctx.sample({"family": "deliver", "text": texts[len(texts) // 2], "brush": res[len(texts) // 2]["brush"]["stdin"][:2]})
 
 
+# ------------------------------------------------------------------------------------------------
+# here-document tag spellings x bodies x dependent continuations (family "hdtag")
+
+HD_TAGS = [("plain", "EOF"), ("dash", "-EOF"), ("sq", "'EOF'"), ("dq", '"EOF"'), ("bs", "\\EOF"), ("dash_bs", "-\\EOF"),
+           ("part_dq", 'E"O"F'), ("part_sq", "E'OF'"), ("mid_bs", "E\\OF"), ("empty_dq", '""EOF')]
+HD_BODIES = ["plain", "dollar", "tagblank", "empty"]
+HD_CONTS = ["read", "after", "synerr", "two"]
+
+
+def _hd(tag, body, n):
+    """One here-document with end line EOF: the tag as spelled, the body kind; tab-led for `<<-`."""
+    pre = "\t" if tag.startswith("-") else ""
+    b = {"plain": ["hd%d body text" % n], "dollar": ["hd%d $x `echo q` \\$x" % n], "tagblank": ["EOF ", " EOF", "hd%d EOF" % n],
+         "empty": []}[body]
+    return ["cat <<%s" % tag] + [pre + l for l in b] + [pre + "EOF"]
+
+
+def gen_hdtag():
+    out = []
+    for tn, tag in HD_TAGS:
+        for body in HD_BODIES:
+            for cont in HD_CONTS:
+                ls = ["x=val"] + _hd(tag, body, 1)
+                if cont == "read":
+                    ls += ["read v", "echo data line", 'echo "got:$v"']
+                elif cont == "after":
+                    ls += ["echo after $LINENO"]
+                elif cont == "synerr":
+                    ls += ["echo after", ")", "echo unreachable"]
+                else:
+                    ls += _hd(tag, body, 2) + ["read v", "echo data line", 'echo "got:$v"', "echo after $LINENO"]
+                out.append({"key": ("hdtag", tn, body, cont), "text": "\n".join(ls) + "\n", "cont": cont})
+    return out
+
+
+def hdtag_bad(cont, r):
+    """Reasons the case fails: brush vs bash mode by mode (after a syntax error only standard input is compared:
+    brush parses a file / -c text as a whole, bash command by command; that difference is not this family's subject)."""
+    modes = ["stdin"] if cont == "synerr" else MODES
+    bad = []
+    for m in modes:
+        b, a = r["brush"][m][:2], r["bash"][m][:2]
+        if cont == "synerr":
+            b, a = (b[0] != 0, b[1]), (a[0] != 0, a[1])
+        if b != a:
+            bad.append(m)
+    return bad
+
+
+def check_hdtag(ctx):
+    lim = Lim(ctx)
+    progs = gen_hdtag()
+    res = lib.pmap(deliver, [p["text"] for p in progs])
+    for p, r in zip(progs, res):
+        ctx.count(("hdtag", p["text"]), nontrivial=True, bucket="hdtag_" + p["cont"])
+        ctx.bucket("hdtag_tag_" + p["key"][1])
+        ctx.impl_validated += 1
+        bad = hdtag_bad(p["cont"], r)
+        if bad:
+            lim.violation("a here-document whose tag is spelled `<<%s` followed by a dependent line behaves differently from bash "
+                          "when delivered as: %s" % (dict(HD_TAGS)[p["key"][1]], ", ".join(bad)),
+                          {"family": "hdtag", "text": p["text"], "cont": p["cont"], "feats": list(p["key"][1:]),
+                           "brush": {m: r["brush"][m][:2] for m in MODES}, "bash": {m: r["bash"][m][:2] for m in MODES}})
+    lim.flush()
+
+
 BAD_LINES = ["echo ;;", "fi", "done", ")", "echo a )", "esac", "then", ";", "&& echo x", "| cat", "do", "echo a ;; echo b", "}", "elif x", "(( 1 + ", "echo )("]
 
 
@@ -1118,6 +1184,7 @@ def run(ctx):
     else:
         sub1 = exh1
     check_delivery(ctx, corpus + sub1 + sub2 + rnd[:nd])
+    check_hdtag(ctx)
     check_invalid(ctx, gen_invalid(rng, ctx.size(100, 2000)))
     check_cache_inproc(ctx, ctx.size(150, 3000), ctx.size(40, 150))
     check_cache_exec(ctx, ctx.size(60, 1500))
@@ -1129,7 +1196,11 @@ def run(ctx):
                        "file, -c, source, eval and standard input to brush and bash; brush's real read_line loop on each text vs "
                        "the model vs bash's own read positions; invalid lines after every head/opened construct; parse histories "
                        "(every text under every ordered pair of extglob/posix/sh settings, plus random) long-lived vs fresh; "
-                       "non-trivial = at least two lines / two distinct calls")
+                       "non-trivial = at least two lines / two distinct calls; here-document tags: every spelling (EOF -EOF 'EOF' "
+                       "\"EOF\" \\EOF -\\EOF E\"O\"F E'OF' E\\OF \"\"EOF) x body (plain, $x, tag-plus-blank lines, empty) x "
+                       "continuation (read of the next program line, echo, later syntax error, two here-documents in a row), "
+                       "exhaustive, each under file/-c/source/eval/stdin, brush vs bash mode by mode (not sent to the Lean "
+                       "reader model; after a syntax error standard input only)")
     ctx.assumptions += ["bash reading a script from a seekable standard input leaves the descriptor's offset at the end of the "
                         "last line it has parsed when it runs an external command (used as oracle for `as soon as`)",
                         "a fresh harness process has cold caches",
@@ -1152,6 +1223,14 @@ def replay(ctx, rp):
         ref = r["bash"]["file"][:2]
         bad = len(set(bm.values())) > 1 or (bm["file"][0], mask_ml(bm["file"][1])) != (ref[0], mask_ml(ref[1]))
         print("property on brush:", "FAILS" if bad else "holds")
+        return 1 if bad else 0
+    if fam == "hdtag":
+        r = deliver(case["text"])
+        for w in ("brush", "bash"):
+            for m in MODES:
+                print("%-5s %-6s rc=%s out=%r" % (w, m, r[w][m][0], r[w][m][1]))
+        bad = hdtag_bad(case["cont"], r)
+        print("property on brush:", "FAILS (%s)" % ", ".join(bad) if bad else "holds")
         return 1 if bad else 0
     if fam in ("chunks", "invalid"):
         t = case["text"]
